@@ -199,6 +199,99 @@ def gen_tt(rng, d=None, nmax=4, rmax=3, lo=0, hi=3, zero_frac=0.0):
     return Y
 
 
+# ----------------------------------------------------------------------------
+# non-negative tensors whose cores (and right partial sums) have both signs
+# ----------------------------------------------------------------------------
+
+def right_sums(Y):
+    """the vectors phi[1..d-1] sample() contracts with: right partial sums of the cores"""
+    w, out = np.ones(1), []
+    for G in reversed(Y[1:]):
+        w = np.sum(G, axis=1) @ w
+        out.append(w)
+    return out
+
+
+def _unimodular(rng, r):
+    """integer matrix of determinant 1 and its (integer) inverse: a product of shears"""
+    M, Mi = np.eye(r), np.eye(r)
+    if r < 2:
+        return M, Mi
+    for _ in range(rng.randint(1, 3)):
+        a = rng.randrange(r)
+        b = (a + 1 + rng.randrange(r - 1)) % r
+        c = float(rng.choice([-2, -1, 1, 2]))
+        E, Ei = np.eye(r), np.eye(r)
+        E[a, b], Ei[a, b] = c, -c
+        M, Mi = M @ E, Ei @ Mi
+    return M, Mi
+
+
+def gen_gauged_int(rng, d, nmax=3, rmax=3):
+    """non-negative integer tensor (non-negative cores of TT-rank >= 2 where possible) re-gauged by integer
+    unimodular matrices between the cores: the tensor is unchanged (exactly), the cores and at least one right
+    partial sum have negative entries"""
+    for _ in range(200):
+        n = [rng.randint(1, nmax) for _ in range(d)]
+        r = [1] + [rng.randint(2, rmax) for _ in range(d - 1)] + [1]
+        Y0 = [np.array([[[float(rng.randint(0, 2)) for _ in range(r[k + 1])] for _ in range(n[k])]
+                        for _ in range(r[k])]).reshape(r[k], n[k], r[k + 1]) for k in range(d)]
+        Y = [G.copy() for G in Y0]
+        for k in range(d - 1):
+            M, Mi = _unimodular(rng, Y[k].shape[2])
+            Y[k] = np.einsum('aib,bc->aic', Y[k], M)
+            Y[k + 1] = np.einsum('ab,bic->aic', Mi, Y[k + 1])
+        A = full(Y)
+        if not np.array_equal(A, full(Y0)) or A.sum() <= 0 or max(np.abs(G).max() for G in Y) > 64:
+            continue
+        if not any(w.min() < 0 for w in right_sums(Y)):
+            continue
+        return Y
+    return Y
+
+
+def gen_gauged_float(rng, d, kind):
+    """strictly positive tensor re-gauged in floats (numpy only): 'orth' = right-to-left QR sweep (what
+    orthogonalize / truncate / svd leave behind), 'rot' = random rotations / shears between the cores,
+    'square' = Kronecker cores of mul(Y, Y) for a signed integer tensor Y (entries are squares)"""
+    if kind == 'square':
+        for _ in range(100):
+            Ys = gen_tt(rng, d=d, nmax=2, rmax=2, lo=-2, hi=2)
+            Y = [np.einsum('aib,cid->acibd', G, G).reshape(G.shape[0] ** 2, G.shape[1], G.shape[2] ** 2) for G in Ys]
+            if full(Y).sum() > 0 and any(G.min() < 0 for G in Y):
+                return Y
+        return Y
+    n = [rng.randint(2, 3) for _ in range(d)]
+    R_ = rng.randint(2, 3)
+    # sum of R_ positive rank-1 terms (e.g. exp of a separable smooth function): block-diagonal cores
+    vecs = [[np.array([math.exp(rng.uniform(-1, 1) * (i + 1) / n[k]) for i in range(n[k])]) for k in range(d)]
+            for _ in range(R_)]
+    Y = []
+    for k in range(d):
+        r1, r2 = (1 if k == 0 else R_), (1 if k == d - 1 else R_)
+        G = np.zeros((r1, n[k], r2))
+        for t in range(R_):
+            G[0 if k == 0 else t, :, 0 if k == d - 1 else t] = vecs[t][k]
+        Y.append(G)
+    if kind == 'orth':
+        for k in range(d - 1, 0, -1):
+            r1, nk, r2 = Y[k].shape
+            Q, Rm = np.linalg.qr(Y[k].reshape(r1, nk * r2).T)
+            Y[k] = Q.T.reshape(-1, nk, r2)
+            Y[k - 1] = np.einsum('aib,cb->aic', Y[k - 1], Rm)
+    else:
+        for k in range(d - 1):
+            r = Y[k].shape[2]
+            th = rng.uniform(0.5, 2.5)
+            M = np.eye(r)
+            M[:2, :2] = [[math.cos(th), -math.sin(th)], [math.sin(th), math.cos(th)]]
+            M = M @ (np.eye(r) + np.diag([rng.choice([-0.5, 0.75])] * (r - 1), 1))
+            Y[k] = np.einsum('aib,bc->aic', Y[k], M)
+            Y[k + 1] = np.einsum('ab,bic->aic', np.linalg.inv(M), Y[k + 1])
+    return Y
+
+
+
 def full(Y):
     Z = Y[0][0]
     for G in Y[1:]:
@@ -390,6 +483,10 @@ def corr_sample(R, ctx, tn):
         Y = gen_tt(rng, d=d, lo=(-2 if signed else 0), hi=3, zero_frac=zf)
         while full(Y).sum() <= 0 or (not signed and zf and t % 2 and not (full(Y) == 0).any()):
             Y = gen_tt(rng, d=d, lo=(-2 if signed else 0), hi=3, zero_frac=zf)
+        gauged = t > 8 and d >= 2 and rng.random() < 0.3
+        if gauged:
+            Y = gen_gauged_int(rng, d)                           # non-negative tensor, mixed-sign cores
+            signed = False
         if t == 0:
             Y = [np.zeros((1, 2, 1)), np.ones((1, 3, 1))]        # zero tensor
         m = rng.choice([1, 1, 2, 3, 4, 6])
@@ -406,7 +503,8 @@ def corr_sample(R, ctx, tn):
         dist['signed' if signed else 'nonneg'] += 1
         dist['forced' if forced else 'real'] += 1
         dist['unsert'][uns] = dist['unsert'].get(uns, 0) + 1
-        dist['zero_slices'] += bool(zf)
+        dist['zero_slices'] += bool(zf) and not gauged
+        dist['nonneg_tensor_mixed_sign_cores'] = dist.get('nonneg_tensor_mixed_sign_cores', 0) + bool(gauged)
         dist['errors'] += impl[0] != 0
         terms.append(f'showS (sample OQc (lk_ch {rec_choice(g)}) {tt_lit(Y)} {m} {fq(unsert)})')
         impls.append(impl)
@@ -631,12 +729,12 @@ def oracle_sample_chain(tn, Y, unsert, seed=0):
     n = list(A.shape)
     rows = all_idx(n)
     inp = dict(fn='sample', Y=[G.tolist() for G in Y], unsert=unsert, forced='every multi-index')
-    if A.min() < 0 or A.sum() <= 0:
+    if A.min() < -1e-13 * np.abs(A).max() or A.sum() <= 0:
         return None
     marg0 = A.reshape(n[0], -1).sum(axis=1)
     # rows whose first-mode marginal vanishes are unreachable when unsert == 0 (0/0 afterwards): leave them out
-    rows = [r for r in rows if marg0[r[0]] > 0 and
-            all(A[tuple(r[:k])].sum() > 0 for k in range(1, len(n)))]
+    rows = [r for r in rows if marg0[r[0]] > 1e-9 * A.sum() and
+            all(A[tuple(r[:k])].sum() > 1e-9 * A.sum() for k in range(1, len(n)))]
     g = Aud(seed, force=script_force(rows))
     impl, I = run_sample(tn, Y, len(rows), unsert, g)
     if impl[0] != 0:
@@ -1168,6 +1266,16 @@ def search(R, ctx, deep, hints):
             a = [float(rng.randint(-3, 3)) for _ in range(d)]
             cand.append(dict(fn='sample_rand_poi', a=a, b=[x + 1.5 for x in a], m=rng.randint(1, 6),
                              seed=rng.randrange(10 ** 6)))
+    # non-negative tensors with mixed-sign cores (re-gauged): exact chain product for every multi-index
+    for t in range(12 if deep else 6):
+        dd = rng.choice([3, 3, 4, 5])
+        Yg = gen_gauged_int(rng, dd, nmax=(3 if dd < 5 else 2), rmax=3)
+        cand.append(dict(fn='sample', Y=[G.tolist() for G in Yg], unsert=0.0, family='gauged-int'))
+        if t % 2 == 0:
+            cand.append(dict(fn='sample', Y=[G.tolist() for G in Yg], unsert=2.0 ** -6, family='gauged-int'))
+        kind = ['orth', 'rot', 'square'][t % 3]
+        Yf = gen_gauged_float(rng, rng.choice([3, 4] if kind == 'square' else [3, 4, 5]), kind)
+        cand.append(dict(fn='sample', Y=[G.tolist() for G in Yf], unsert=0.0, family='gauged-' + kind))
     # extreme scales (cores times powers of two, long chains): exact probabilities from the integer tensor
     cand += gen_scale_cases(rng, deep)
     # unique=True on strongly peaked tensors (the restart branch), for every kind of seed
@@ -1228,7 +1336,9 @@ def search(R, ctx, deep, hints):
     R.search.append(dict(name='per-multi-index product of audited conditionals, shapes/bounds/dtype, uniqueness, '
                               'LHS counts, sample_tt layout, support + conservative chi-square; extreme scales (cores * 2^+-(100..600), '
                               'chains up to d = 40) against exact integer probabilities; unique=True on peaked tensors '
-                              'and every sampler for seed None / 0 / 1 / Generator, m as float',
+                              'and every sampler for seed None / 0 / 1 / Generator, m as float; non-negative tensors with '
+                              'mixed-sign cores (integer unimodular gauge, QR sweep, rotations, Kronecker squares), d = 3..5, '
+                              'every multi-index',
                          evaluations=n_eval, failures=len(fails), deep=deep))
     return fails
 
